@@ -128,7 +128,7 @@ def ob_characterize(ctx):
     unique_at_zero(ctx, G.structure(), r, n)
     rec = st.record.CircularRecord(st.Seq(r), id="rec")
     cands = list(B.__subclasses__())
-    if not st.mod("moclo._utils").isabstract(B):
+    if not is_abstract(B):
         cands.append(B)
     try:
         ent = B.characterize(rec)
